@@ -105,10 +105,10 @@ theorem px_forUrl_iff (s : ProxySettings) (u p : Url) :
       have hall := (px_any_false_iff _ _).mp ha
       by_cases h1 : u.scheme = str "http"
       · have h2 : u.scheme ≠ str "https" := by rw [h1]; exact px_http_ne_https
-        simp [h1, hall, px_http_ne_https]
+        simp [h1, px_http_ne_https]; exact fun _ => hall
       · by_cases h2 : u.scheme = str "https"
         · have : str "https" ≠ str "http" := fun h => px_http_ne_https h.symm
-          simp [h2, hall, this]
+          simp [h2, this]; exact fun _ => hall
         · simp [h1, h2]
 
 theorem px_forUrl_disabled (s : ProxySettings) (u : Url) : s.disabled = true → s.forUrl u = none := by
@@ -126,9 +126,15 @@ theorem px_any_filter (l : List Bytes) (h : Bytes) :
   | cons a l ih =>
     by_cases ha : a = []
     · subst ha
-      simp [List.filter, lowerBytes, px_match_empty, ih]
-    · have : (a != []) = true := by simpa using ha
-      simp [List.filter, this, ih]
+      have h0 : (([] : Bytes) != []) = false := by decide
+      have h1 : noProxyMatch h (lowerBytes []) = false := px_match_empty h
+      rw [List.filter_cons]
+      simp only [h0, Bool.false_eq_true, if_false]
+      rw [List.any_cons, ih, h1, Bool.false_or]
+    · have h0 : (a != []) = true := by simpa using ha
+      rw [List.filter_cons]
+      simp only [h0, if_true]
+      rw [List.any_cons, List.any_cons, ih]
 
 theorem px_forUrl_filter (s : ProxySettings) (u : Url) :
     ({ s with noProxy := s.noProxy.filter (fun e => e != []) } : ProxySettings).forUrl u = s.forUrl u := by
@@ -143,10 +149,10 @@ theorem px_getEnvUrl_iff (parse : Bytes → Option Url) (v : Option Bytes) (u : 
     getEnvUrl parse v = some u ↔
       ∃ val, v = some val ∧ getEnvUrl.strTrim val ≠ [] ∧ parse val = some u ∧
         (u.scheme = str "http" ∨ u.scheme = str "https") := by
-  unfold getEnvUrl
   cases v with
-  | none => simp
+  | none => simp [getEnvUrl]
   | some val =>
+    simp only [getEnvUrl]
     by_cases ht : getEnvUrl.strTrim val = []
     · simp [ht]
     · cases hp : parse val with
@@ -156,7 +162,7 @@ theorem px_getEnvUrl_iff (parse : Bytes → Option Url) (v : Option Bytes) (u : 
         · simp only [ht, if_false, hs, if_true]
           constructor
           · intro h; cases h
-            refine ⟨val, rfl, ht, rfl, ?_⟩
+            refine ⟨val, rfl, ht, hp, ?_⟩
             simpa using hs
           · rintro ⟨val', hv, _, hw, _⟩
             cases hv; rw [hp] at hw; exact hw
@@ -166,6 +172,43 @@ theorem px_getEnvUrl_iff (parse : Bytes → Option Url) (v : Option Bytes) (u : 
           · rintro ⟨val', hv, _, hw, hsch⟩
             cases hv; rw [hp] at hw; cases hw
             exact absurd (by simpa using hsch) hs
+
+end Px
+end Atto
+
+namespace Atto
+namespace Px
+
+/-- Example data: a URL record with default port. -/
+def px_url (scheme host : String) (effPort : Nat) : Url :=
+  { scheme := str scheme, user := [], pass := none, host := str host, hostKind := 0, port := none,
+    effPort := effPort, path := str "/", query := none, fragment := none }
+
+/-- Example `Url::parse` stand-in: recognises three fixed values. -/
+def px_parse (v : Bytes) : Option Url :=
+  if v = str "http://p1:3128" then some { px_url "http" "p1" 3128 with port := some 3128 }
+  else if v = str "http://p2:3128" then some { px_url "http" "p2" 3128 with port := some 3128 }
+  else if v = str "socks5://p3" then some (px_url "socks5" "p3" 1080)
+  else none
+
+def px_env0 : Env :=
+  { all_proxy := none, ALL_PROXY := none, http_proxy := none, HTTP_PROXY := none,
+    https_proxy := none, HTTPS_PROXY := none, no_proxy := none, NO_PROXY := none }
+
+theorem px_fromEnv_congr (parse : Bytes → Option Url) (e e' : Env)
+    (g1 : getEnv e.all_proxy e.ALL_PROXY = getEnv e'.all_proxy e'.ALL_PROXY)
+    (g2 : getEnv e.http_proxy e.HTTP_PROXY = getEnv e'.http_proxy e'.HTTP_PROXY)
+    (g3 : getEnv e.https_proxy e.HTTPS_PROXY = getEnv e'.https_proxy e'.HTTPS_PROXY)
+    (g4 : getEnv e.no_proxy e.NO_PROXY = getEnv e'.no_proxy e'.NO_PROXY) :
+    fromEnv parse e = fromEnv parse e' := by
+  simp only [fromEnv, g1, g2, g3, g4]
+
+theorem px_getEnv_congr {lo up lo' up' : Option Bytes} (h1 : lo = lo') (h2 : lo = none → up = up') :
+    getEnv lo up = getEnv lo' up' := by
+  subst h1
+  cases lo with
+  | none => simp [getEnv, h2 rfl]
+  | some v => rfl
 
 end Px
 end Atto
